@@ -352,26 +352,6 @@ func (dn *dirNode) dirEntries() []fs.DirEntry {
 	return entries
 }
 
-// dirNames returns a slice of file names from a directory ordered by name.
-func (dn *dirNode) dirNames() []string {
-	l := len(dn.children)
-	if l == 0 {
-		return nil
-	}
-
-	names := make([]string, l)
-	i := 0
-
-	for name := range dn.children {
-		names[i] = name
-		i++
-	}
-
-	sort.Strings(names)
-
-	return names
-}
-
 // setMode sets the permissions of the directory node.
 func (dn *dirNode) setMode(mode fs.FileMode, u avfs.UserReader) bool {
 	if dn.uid != u.Uid() && !u.IsAdmin() {
